@@ -39,8 +39,8 @@ FLOORS = {'quick': {'numbers_decoded': 1000000, 'number_chunks': 20, 'table_case
                     'targets_with_2plus_vars_f_not_name_order': 100, 'valid_proof_cases': 100, 'cases_with_Z': 300,
                     'label_list_len_0': 20, 'twin_theorem_cases': 100, 'label_list_len_30plus': 50, 'wild_whitespace_cases': 300, 'hash_seeds_per_case_min16': 1500,
                     **{f'seed_runs:{s}': 1500 for s in QUICK_SEEDS}}}
-FLOORS['thorough'] = dict(FLOORS['quick'], numbers_decoded=3000000, number_chunks=60, table_cases=20000,
-                          **{f'seed_runs:{s}': 20000 for s in range(64)})
+FLOORS['thorough'] = dict(FLOORS['quick'], numbers_decoded=3000000, number_chunks=60, table_cases=12000,
+                          **{f'seed_runs:{s}': 12000 for s in range(32)})
 
 REPO = Path(os.environ.get('PI2_REPO', '/repo'))
 VERIF = Path(__file__).resolve().parents[2]
@@ -197,7 +197,7 @@ def shard(ctx):
     if not selfcheck(ctx):
         return
     scratch = ctx.mkscratch()
-    seeds = list(QUICK_SEEDS) if ctx.quick else list(range(64)) + [10 ** 6 + ctx.shard, 2 ** 31 + ctx.shard, 4294967295 - ctx.shard]
+    seeds = list(QUICK_SEEDS) if ctx.quick else list(range(32)) + [10 ** 6 + ctx.shard, 2 ** 31 + ctx.shard, 4294967295 - ctx.shard]
 
     # ---- (i) numbers, exhaustive
     top = 10 ** 6 if ctx.quick else 3 * 10 ** 6
@@ -244,7 +244,7 @@ def shard(ctx):
         ctx.sample({'class': 'numbers', 'chunks': mine, 'first_letters': [mm.encode(lo) for lo, _ in mine]})
 
     # ---- (ii)-(iv) tables
-    total = ctx.scale(2400, 40000)
+    total = ctx.scale(2400, 24000)
     cases = []
     while len(cases) < total:
         r = rng.random()
